@@ -326,12 +326,21 @@ impl Worker {
         let now = Instant::now();
         for &bucket_id in bucket_ids.iter() {
             if bucket_id_to_thread_id(bucket_id, bucket_ids, num_threads) == Some(thread_id) {
-                let (bucket_segment_id, writer) =
+                let (bucket_segment_id, mut writer) =
                     BucketSegmentWriter::latest(bucket_id, &dir, segment_size, compression)?;
                 let mut reader = BucketSegmentReader::open(
                     SegmentKind::Events.get_path(&dir, bucket_segment_id),
                     Some(writer.flushed_offset()),
                 )?;
+
+                // A crash in the middle of an append can leave the events of a transaction
+                // without their commit record at the end of the segment. They were never
+                // acknowledged and readers skip them: drop them, so that they are not
+                // indexed and the next append continues right after the last transaction.
+                let committed_end = reader.committed_end()?;
+                if committed_end < writer.write_offset() {
+                    writer.set_len(committed_end)?;
+                }
 
                 let mut event_index = OpenEventIndex::open(
                     bucket_segment_id,
